@@ -241,6 +241,7 @@ def write_gen(tooldir, gendir):
     try:
         files = gen_files(tooldir)
         files["SelfConfig.v"] = self_config_file(tooldir)
+        files["Sites.v"] = sites_file(tooldir)
     except (GenError, KeyError) as e:
         files = {"EnvGen.v": "(* translation failed: %s *)\nFrom GV Require Import Base.Str.\nDefinition translation_failed : True := I I.\n" % e}
     for name, text in files.items():
@@ -249,3 +250,18 @@ def write_gen(tooldir, gendir):
         if old != text:
             with open(p, "w") as f:
                 f.write(text)
+
+
+def site_id(x):
+    return "%s|%s|%s" % (x["pkg"], x["func"], x["hash"])
+
+
+def sites_file(tooldir):
+    """Gen/Sites.v: the inventory dumped by sitestool from the current tree, one list per kind"""
+    sites = json.load(open(os.path.join(tooldir, "sites.json")))
+    out = ["(* GENERATED on every run by harness/vlib/gen.py from sitestool's inventory of /repo. *)",
+           "From GV Require Import Base.Str.", "From Coq Require Import List.", "Import ListNotations.", ""]
+    for kind, name in (("map-range", "map_range_sites"), ("ambient", "ambient_sites"), ("panic-site", "panic_sites")):
+        ids = sorted(site_id(x) for x in sites if x["kind"] == kind)
+        out.append("Definition %s : list str := [%s]." % (name, ";\n  ".join(lit(i) for i in ids)))
+    return "\n".join(out) + "\n"
